@@ -111,6 +111,7 @@ type ChainOpts struct {
 	NoCommit    bool
 	NoChainName bool   // do not set the xibc chain name (genesis import tests)
 	Bond        string // the validator's self-bond in base units (default 1e16)
+	SecondVal   bool   // a second bonded validator (same self-bond, delegated by the first account): redelegation target
 }
 
 // NewChain builds a chain with one validator and the given funded accounts.
@@ -170,16 +171,30 @@ func NewChain(o ChainOpts) *Chain {
 		MinSelfDelegation: sdk.ZeroInt(),
 	}
 	deleg := stakingtypes.NewDelegation(o.Accts[0].Acc, val.Address.Bytes(), bondAmt.ToDec())
-	gs[stakingtypes.ModuleName] = a.AppCodec().MustMarshalJSON(stakingtypes.NewGenesisState(stakingtypes.DefaultParams(), []stakingtypes.Validator{validator}, []stakingtypes.Delegation{deleg}))
+	validators, delegations, bonded := []stakingtypes.Validator{validator}, []stakingtypes.Delegation{deleg}, bondAmt
+	if o.SecondVal {
+		pub2, err := seededPV(o.ChainID + "/val2").GetPubKey()
+		must(err)
+		pk2, err := cryptocodec.FromTmPubKeyInterface(pub2)
+		must(err)
+		any2, err := codectypes.NewAnyWithValue(pk2)
+		must(err)
+		v2 := validator
+		v2.OperatorAddress, v2.ConsensusPubkey = sdk.ValAddress(pub2.Address()).String(), any2
+		validators = append(validators, v2)
+		delegations = append(delegations, stakingtypes.NewDelegation(o.Accts[0].Acc, sdk.ValAddress(pub2.Address()), bondAmt.ToDec()))
+		bonded = bondAmt.MulRaw(2)
+	}
+	gs[stakingtypes.ModuleName] = a.AppCodec().MustMarshalJSON(stakingtypes.NewGenesisState(stakingtypes.DefaultParams(), validators, delegations))
 
 	evmGen := evmtypes.DefaultGenesisState()
 	evmGen.Params.EvmDenom = sdk.DefaultBondDenom
 	gs[evmtypes.ModuleName] = a.AppCodec().MustMarshalJSON(evmGen)
 
-	total = total.Add(sdk.NewCoin(sdk.DefaultBondDenom, bondAmt))
+	total = total.Add(sdk.NewCoin(sdk.DefaultBondDenom, bonded))
 	balances = append(balances, banktypes.Balance{
 		Address: authtypes.NewModuleAddress(stakingtypes.BondedPoolName).String(),
-		Coins:   sdk.Coins{sdk.NewCoin(sdk.DefaultBondDenom, bondAmt)},
+		Coins:   sdk.Coins{sdk.NewCoin(sdk.DefaultBondDenom, bonded)},
 	})
 	gs[banktypes.ModuleName] = a.AppCodec().MustMarshalJSON(banktypes.NewGenesisState(banktypes.DefaultGenesisState().Params, balances, total, []banktypes.Metadata{}))
 
